@@ -22,7 +22,6 @@ from props import supp_common as G
 from props import exec_common as X
 
 PID = "C24"
-KEY_EXECDEP = "executor-dependent-unmatched:global-shadowed-by-local"
 
 
 def sha(c):
@@ -37,7 +36,7 @@ def check(run, replay):
         "extraction: Require Extraction + ExtrOcamlBasic only; ocaml/driver.ml (I/O)",
         "harness/vh_common.h + vh_c23.cpp + vh_c24.cpp (decode a case; call SuppressionList::isSuppressed/addSuppression/updateSuppressionState/"
         "markUnmatchedInlineSuppressionsAsChecked/getUnmatched*Suppressions, CppCheck::verifLogger().reportErr, CppCheckExecutor::reportUnmatchedSuppressions)",
-        "PathMatch::match is a parameter `pm` of the theorems; executable instances: equality (harness streams, plain names) and the glob language on separator-free names (end-to-end stream); general paths are C31",
+        "PathMatch::match is a parameter `pm` of the theorems; the executable model uses C31's pm_model / simplify_path (Path/Defs.v)",
         "modelled, not verified: lib/suppressions.cpp (isMatch, isSuppressed(list), getUnmatched*Suppressions, addSuppression duplicate test, updateSuppressionState, "
         "markUnmatchedInlineSuppressionsAsChecked), lib/cppcheck.cpp (CppCheck::check dummy query, CppCheckLogger::reportErr), cli/executor.cpp hasToLog, "
         "cli/threadexecutor.cpp + cli/processexecutor.cpp suppression transfer (record level, not the pipe format), cli/cppcheckexecutor.cpp getUnmatchedSuppressions/reportUnmatchedSuppressions",
@@ -48,7 +47,7 @@ def check(run, replay):
                         "the OS delivers the worker's pipe messages intact (process executor; wire format is C15's subject)"]
     run.extra["rule"] = ("flags/list/logger: generators of supp_common (each matching criterion holds/fails independently); non-trivial = at least one "
                          "suppression and distinct case. selectors/report: random suppressions with random matched/checked flags, 25% unmatchedSuppression entries, "
-                         "wildcard/plain/empty file names; non-trivial = distinct case with >=1 suppression. end-to-end: 1-3 generated C files (+ optional shared header) "
+                         "wildcard/plain/directory/../empty file names; non-trivial = distinct case with >=1 suppression. end-to-end: 1-3 generated C files (+ optional shared header) "
                          "with planted nullPointer/zerodiv/arrayIndexOutOfBounds/uninitvar findings and inline suppression comments x 0-4 --suppress specs "
                          "(global, file, wildcard file, file:line) x --inline-suppr x information on/off x -j1 / -j2 thread / -j2 process; "
                          "non-trivial = distinct (files, argv) with at least one suppression or inline mode.")
@@ -179,10 +178,7 @@ def execdep(run, model, quick):
     if found:
         files, order, specs, res = found
         run.stream("property across executors (same input, -j1 / thread / process)")["disagreements"] += 1
-        # classify: the known shape = a global suppression reported only by the multi-job executors
-        extra = (res[1] | res[2]) - res[0]
-        key = KEY_EXECDEP if extra and all(e[0] == "nofile" or "*" in e[0] or "?" in e[0] for e in extra) and not (res[0] - res[1]) and not (res[0] - res[2]) \
-            else "executor-dependent-unmatched:" + hashlib.sha1(repr((sorted(files.items()), specs)).encode()).hexdigest()[:10]
+        key = "executor-dependent-unmatched:" + hashlib.sha1(repr((sorted(files.items()), specs)).encode()).hexdigest()[:10]
         run.violation(key, "the unmatchedSuppression set depends on the executor: -j1 %s, thread %s, process %s (suppressions %s)"
                       % (sorted(res[0]), sorted(res[1]), sorted(res[2]), specs),
                       {"files": files, "suppress": specs, "order": order,
